@@ -54,8 +54,8 @@ func (c *Channel) VerifMachine() channel.Source { return c.machine.StateMachine 
 
 // VerifRegisterSubChannelFunding installs the funding interceptor as
 // completeCPP does for the proposee of a sub-channel.
-func (c *Channel) VerifRegisterSubChannelFunding(id channel.ID, alloc []channel.Bal) {
-	c.registerSubChannelFunding(id, alloc)
+func (c *Channel) VerifRegisterSubChannelFunding(id channel.ID, bals channel.Balances) {
+	c.registerSubChannelFunding(id, bals)
 }
 
 // VerifRegisterSubChannelSettlement installs the settlement interceptor as
@@ -91,4 +91,10 @@ func (c *Client) VerifDeriveParams(prop ChannelProposal, acc ChannelProposalAcce
 		prop.Type() == wire.VirtualChannelProposal,
 		propBase.Aux,
 	)
+}
+
+// VerifPersistVirtualChannel creates the hub's view of a funded virtual channel
+// as matchFundingProposal does.
+func (c *Client) VerifPersistVirtualChannel(ctx Ctx, parent *Channel, peers []map[wallet.BackendID]wire.Address, params channel.Params, state channel.State, sigs []wallet.Sig) (*Channel, error) {
+	return c.persistVirtualChannel(ctx, parent, peers, params, state, sigs)
 }
